@@ -174,7 +174,7 @@ func c08Limits(c *Ctx) {
 				}
 				{
 					// JSON: pad the data so that the JSON text has exactly target bytes
-					for n := 0; n <= target; n++ {
+					for n := max(0, (target-60)*3/4-16); n <= target; n++ { // base64 inside JSON: about 4/3 of the data plus a small frame
 						dj := make([]byte, n)
 						c.Rng.Read(dj)
 						j, _ := protojson.Marshal(reqWithData(fx, dj))
